@@ -1,6 +1,7 @@
 //! C11 — functions are exactly the call targets and their bodies are what
 //! they reach.
 
+use riscv_analysis::passes::DiagnosticLocation as _;
 use crate::c03::{has_next, index_map, is_rewritten_return, node_desc, ptr};
 use crate::driver::*;
 use crate::gen::*;
@@ -334,12 +335,14 @@ pub fn check_functions(
         return Some(("sharing-reported-without-sharing".into(), String::new()));
     }
     for r in reports {
-        // the item must name an entry label of a function involved in the sharing
+        // the item must designate an instruction that really has several owners: by one of
+        // its labels, or (an instruction without a label) by its own text
         let text: String = src.chars().skip(r.start_raw).take(r.end_raw.saturating_sub(r.start_raw)).collect();
         let name = text.trim_end_matches(':').trim().to_string();
-        let ok = funcs.iter().any(|f| {
-            f.entry().labels.iter().any(|l| l.get().as_str() == name)
-                && f.nodes().iter().any(|n| n.functions().len() > 1)
+        let ok = nodes.iter().any(|n| {
+            n.functions().len() > 1
+                && (n.labels().iter().any(|l| l.get().as_str() == name)
+                    || (n.node().range().start().raw_index() == r.start_raw && n.node().range().end().raw_index() == r.end_raw))
         });
         if !ok {
             return Some(("sharing-report-names-uninvolved-label".into(), format!("'{text}'")));
